@@ -1593,6 +1593,12 @@ class Routing:
                              'a second registration for the same (model type, culture) silently replaces the first', ev[3])
         if not stored or roles is None:
             raise AnalysisError('%s %s: no store into self.model_factories recognised' % (mod.rel, what))
+        silent = [p for p in pe.paths if p.exit[0] != 'raise'
+                  and not any(ev[0] == 'store' and isinstance(ev[1], ast.Subscript) and self_attr(ev[1].value, 'model_factories')
+                              for ev in p.events)]
+        self.finding(not silent, 'C17.register', mod, what + ' unconditional',
+                     'every non-raising path stores the constructor=%s' % (not silent),
+                     'ModelFactory.register_model returns without storing the constructor on some path', fn.lineno)
         dup_raise = any(p.exit[0] == 'raise' and not any(ev[0] == 'store' for ev in p.events) for p in pe.paths)
         self.finding(dup_raise, 'C17.register', mod, what + ' duplicate raise', 'a duplicate raises=%s' % dup_raise,
                      'a duplicate registration is not rejected with an exception', fn.lineno)
@@ -1717,9 +1723,17 @@ class Routing:
         fr_roles = self.roles['factory.register_model']
         rroles = {}
         found = False
-        for n in ast.walk(fn):
-            if isinstance(n, ast.Call) and isinstance(n.func, ast.Attribute) and n.func.attr == 'register_model' \
-                    and self_attr(n.func.value, 'model_factory'):
+        pe0 = PathEnum(fn, '%s Recognizer.register_model' % mod.rel)
+        fwd, seen_fwd = [], set()
+        for p0 in pe0.paths:
+            for e0 in path_nodes(p0):
+                for n0 in ast.walk(p0.expand(e0)):
+                    if isinstance(n0, ast.Call) and isinstance(n0.func, ast.Attribute) and n0.func.attr == 'register_model' \
+                            and self_attr(n0.func.value, 'model_factory') and dump(n0) not in seen_fwd:
+                        seen_fwd.add(dump(n0))
+                        fwd.append(n0)
+        for n in fwd:
+            if True:
                 found = True
                 br = self._bind_roles(n, fr, fr_roles, 'Recognizer.register_model')
                 ps = params_of(fn)
@@ -1737,6 +1751,20 @@ class Routing:
         if not found:
             raise AnalysisError('%s Recognizer.register_model does not call self.model_factory.register_model' % mod.rel)
         self.roles['Recognizer.register_model'] = rroles
+        # every registration made by initialize_configuration must reach the factory: register_model is unconditional up to
+        # argument validation (a path may raise, it may not return without forwarding)
+        pe = PathEnum(fn, '%s Recognizer.register_model' % mod.rel)
+
+        def forwards(p):
+            return any(isinstance(n, ast.Call) and isinstance(n.func, ast.Attribute) and n.func.attr == 'register_model'
+                       and self_attr(n.func.value, 'model_factory') for e in path_nodes(p) for n in ast.walk(p.expand(e)))
+        dropping = [p for p in pe.paths if p.exit[0] != 'raise' and not forwards(p)]
+        conds = sorted({'%s is %s' % (p.show(ev[1]), ev[2]) for p in dropping for ev in p.events if ev[0] == 'cond'})
+        self.finding(not dropping, 'C17.register', mod, 'Recognizer.register_model unconditional',
+                     'every non-raising path forwards the registration' if not dropping else 'dropped when: ' + '; '.join(conds),
+                     'Recognizer.register_model silently drops a registration when %s: a culture the recogniser was not created for '
+                     'is then answered by the English model (or by whatever an earlier recogniser cached)' % '; '.join(conds),
+                     dropping[0].exit[2] if dropping else fn.lineno)
 
 
 # =====================================================================================================
@@ -1752,6 +1780,30 @@ class Reg:
     @property
     def construct(self):
         return "%s.register_model('%s', Culture.%s)" % (self.rc.name, self.name, self.member)
+
+
+def as_lambda(rt, mod, ctor, local_defs, what):
+    """the constructor argument of register_model as a lambda: a lambda, the name of a local / module-level `def` whose
+    body is a single return (or of a local `name = lambda ...`); anything else is not understood"""
+    if isinstance(ctor, ast.Lambda):
+        return ctor
+    fn = None
+    if isinstance(ctor, ast.Name):
+        fn = local_defs.get(ctor.id)
+        if fn is None:
+            r = rt.idx.resolve(mod, ctor.id)
+            if r and r[0] == 'func':
+                fn = r[2]
+    if isinstance(fn, ast.Lambda):
+        return fn
+    if isinstance(fn, ast.FunctionDef):
+        body = [st for st in fn.body if not (isinstance(st, ast.Expr) and isinstance(st.value, ast.Constant))]
+        if len(body) == 1 and isinstance(body[0], ast.Return) and body[0].value is not None and not fn.decorator_list:
+            lam = ast.Lambda(args=fn.args, body=body[0].value)
+            return ast.fix_missing_locations(ast.copy_location(lam, fn))
+        raise AnalysisError('%s: constructor function %s is not a single `return <model>`' % (what, fn.name))
+    raise AnalysisError('%s: constructor argument %s is neither a lambda nor a function the reader can resolve'
+                        % (what, ast.unparse(ctor)))
 
 
 def close_lambda(lam, binding):
@@ -1802,6 +1854,7 @@ def registrations(rt):
     if sorted(roles.values()) != ['ctor', 'culture', 'model_type']:
         roles = dict(zip(params_of(reg_fn), ['model_type', 'culture', 'ctor']))
     out = []
+    rt.conditional_regs = []
     if not rt.recognizers:
         raise AnalysisError('no subclass of Recognizer found in the index')
     for rc in rt.recognizers:
@@ -1825,8 +1878,7 @@ def registrations(rt):
             if member is None:
                 raise AnalysisError('%s: culture argument %s is not a Culture member'
                                     % (what, ast.unparse(cult) if cult is not None else '<missing>'))
-            if not isinstance(ctor, ast.Lambda):
-                raise AnalysisError('%s: constructor argument is not a lambda' % what)
+            ctor = as_lambda(rt, k.mod, ctor, local_defs, what)
             found.append(Reg(rc, k, name.value, member, close_lambda(ctor, binding) if binding else ctor, node))
 
         def has_registration(node):
@@ -1852,6 +1904,8 @@ def registrations(rt):
                 elif isinstance(st, (ast.While, ast.AsyncFor, ast.FunctionDef, ast.AsyncFunctionDef, ast.ClassDef)):
                     raise AnalysisError('%s:%d registrations inside %s are not understood' % (k.mod.rel, st.lineno, type(st).__name__))
                 elif isinstance(st, (ast.If, ast.With, ast.Try)):
+                    if isinstance(st, ast.If):
+                        rt.conditional_regs.append((rc, k, st))
                     for fld in ('body', 'orelse', 'finalbody'):
                         walk(getattr(st, fld, []) or [], binding)
                     for h in getattr(st, 'handlers', []) or []:
@@ -1860,6 +1914,14 @@ def registrations(rt):
                     for node in source_order(st):
                         if isinstance(node, ast.Call) and isinstance(node.func, ast.Attribute) and node.func.attr == 'register_model':
                             one(node, binding)
+        local_defs = {}
+        for x in ast.walk(fn):
+            if x is not fn and isinstance(x, ast.FunctionDef):
+                local_defs[x.name] = x
+            elif isinstance(x, ast.Assign) and isinstance(x.value, ast.Lambda):
+                for t in x.targets:
+                    if isinstance(t, ast.Name):
+                        local_defs[t.id] = x.value
         walk(fn.body, {})
         out.extend(found)
         n = len(found)
@@ -2373,6 +2435,40 @@ def check_registrations(chk, rt, regs=None, with_controls=True):
                   'second registration of the same (model type, culture): register_model raises ValueError, the recogniser '
                   'cannot be constructed', r.call.lineno)
         seen[k] = r
+    # every supported culture of a language the recogniser serves is registered (non-wildcard codes)
+    by_rc_name = {}
+    for r in regs:
+        by_rc_name.setdefault((r.rc.qual, r.name), []).append(r)
+    for (rq, name), rs in sorted(by_rc_name.items()):
+        have = {r.member for r in rs}
+        langs = {rt.language_of_member(m) for m in have}
+        for lang in sorted(langs):
+            sibs = sorted(m for m in rt.members if rt.language_of_member(m) == lang and m in rt.codes)
+            via = sorted(m for m in sibs if m in have)
+            for m in sibs:
+                construct = "%s '%s' %s cultures" % (rs[0].rc.name, name, lang)
+                if m in have:
+                    continue
+                if '*' in rt.codes[m]:
+                    chk.exempt('C17.reg-coverage', rs[0].owner.mod.path, construct,
+                               'Culture.%s (%s) is the wildcard that map_to_nearest_language returns for unlisted variants; it has no '
+                               'registration in any recogniser and is served by the fallback' % (m, rt.codes[m]),
+                               'Culture.%s not registered' % m, rs[0].call.lineno)
+                else:
+                    chk.bad('C17.reg-coverage', rs[0].owner.mod.path, construct,
+                            'registered for %s, not for Culture.%s' % (', '.join('Culture.' + v for v in via), m),
+                            "'%s' is registered for %s but not for the supported culture Culture.%s (%s): map_to_nearest_language "
+                            "leaves %s unchanged, so the request is answered by the English model (or ValueError) although the %s "
+                            "model exists" % (name, ', '.join(via), m, rt.codes[m], rt.codes[m], lang), rs[0].call.lineno)
+            if all(m in have for m in sibs if '*' not in rt.codes[m]):
+                chk.ok('C17.reg-coverage', rs[0].owner.mod.path, "%s '%s' %s cultures" % (rs[0].rc.name, name, lang),
+                       'registered for %s' % ', '.join(via), rs[0].call.lineno)
+    for rc_, k_, st in getattr(rt, 'conditional_regs', []):
+        if regs is rt._regs:
+            chk.bad('C17.reg-coverage', k_.mod.path, '%s.initialize_configuration' % rc_.name,
+                    'registration under `if %s`' % ast.unparse(st.test),
+                    'a registration is conditional on `%s`: the constructor table depends on run-time state' % ast.unparse(st.test),
+                    st.lineno)
     # name <-> class bijection; class is a Model; lambda has one parameter
     name2cls, cls2name = {}, {}
     for r in regs:
@@ -2895,6 +2991,9 @@ def controls(chk, rt):
         lit = next((r for r in regs if any(rt.culture_member(r.owner.mod, n) for n in ast.walk(r.lam.body))), None)
         if lit is not None:
             bent.append(Reg(lit.rc, lit.owner, lit.name, 'Korean', lit.lam, lit.call))               # stale Culture literal
+        mx = next((r for r in bent if r.member == 'SpanishMexican'), None)
+        if mx is not None:
+            bent.remove(mx)                                                 # es-mx lost while es-es stays
         sc = _scratch(chk)
         check_registrations(sc, rt, bent, with_controls=False)
         fired |= _violated(sc)
@@ -2915,7 +3014,8 @@ def controls(chk, rt):
         judge_helper(sc, rt, rc, rc.mod, 'recognize_x', h)
         fired |= _violated(sc)
     for rid in ('C17.fallback', 'C17.cache-key', 'C17.triple', 'C17.register', 'C17.state', 'C17.forward',
-                'C17.reg-unique', 'C17.reg-duplicate', 'C17.reg-class', 'C17.reg-culture', 'C17.getter', 'C17.helper'):
+                'C17.reg-unique', 'C17.reg-duplicate', 'C17.reg-coverage', 'C17.reg-class', 'C17.reg-culture', 'C17.getter',
+                'C17.helper'):
         chk.control(rid, rid in fired)
     return fired
 
@@ -2941,6 +3041,8 @@ def run(chk):
     R('C17.init', 'every recogniser validates options (ValueError) before super().__init__ and forwards its parameters', 5)
     R('C17.reg-unique', 'model type names are unique across recognisers', 10)
     R('C17.reg-duplicate', 'no (model type, culture) is registered twice in one recogniser', 60)
+    R('C17.reg-coverage', 'a model registered for one culture of a language is registered for every supported (non-wildcard) '
+                          'culture of that language; no registration is conditional', 30)
     R('C17.reg-class', 'model type name <-> model class is a bijection over all registrations', 60)
     R('C17.reg-language', 'the components of a registration belong to the registered culture\'s language', 60)
     R('C17.reg-culture', 'Culture.* literals inside a constructor lambda name the registered culture', 3)
